@@ -194,7 +194,9 @@ namespace RecInt
         int posB = (b >= 0)? 1 : -1;
 
         if (posA != posB) return posA;
-        else return static_cast<int>(posA * cmp(a.Value, b));
+        else if (posA > 0) return static_cast<int>(cmp(a.Value, b));
+        // both negative: compare the two's-complement images (cmp(a.Value, b) answers 1 for every negative b)
+        else return cmp(a, rint<K>(b));
     }
 }
 
